@@ -104,3 +104,17 @@ func (n *vgcNode) vgcQuery(index, pql string) ([]interface{}, error) {
 	}
 	return resp.Results, nil
 }
+
+// vgcAllFragments lists every open fragment of the holder.
+func vgcAllFragments(h *Holder) []*fragment {
+	var out []*fragment
+	for _, idx := range h.Indexes() {
+		for _, fld := range idx.Fields() {
+			for _, v := range fld.views() {
+				out = append(out, v.allFragments()...)
+			}
+		}
+	}
+	return out
+}
+
